@@ -743,10 +743,12 @@ pub fn level_fields(level: &J) -> Vec<P> {
     if let Some(tail) = level.get("tail") {
         match s(tail, "kind") {
             "pos" => {
-                for p in arr(tail, "items") {
+                // (`pos_first`: the positional items are declared in front of the level's adjacent groups)
+                let at = if b(level, "pos_first") { 0 } else { fields.len() };
+                for (k, p) in arr(tail, "items").iter().enumerate() {
                     let mut p = p.clone();
                     p["kind"] = J::String("pos".into());
-                    fields.push(build_node(&p));
+                    fields.insert(at + k, build_node(&p));
                 }
             }
             "cmd" => {
@@ -776,6 +778,12 @@ pub fn level_fields(level: &J) -> Vec<P> {
                 }
                 // optionally the command choice and the option declared before it form one group
                 // with its own header (documentation shapes only: the value is nested one level)
+                // positional items declared in front of the commands
+                for p in arr(tail, "pre_pos") {
+                    let mut p = p.clone();
+                    p["kind"] = J::String("pos".into());
+                    fields.push(build_node(&p));
+                }
                 let gh = s(tail, "grouped");
                 if !gh.is_empty() && !fields.is_empty() {
                     let last = fields.pop().unwrap();
